@@ -93,6 +93,40 @@ class Opaque:
         return f"<{self.tag}>"
 
 
+class _LocalFn:
+    """a function defined inside the evaluated body: called with the defining frame's variables visible (read-only closure)"""
+
+    def __init__(self, node, frame):
+        self.node, self.frame = node, frame
+
+
+class _It:
+    """iter(<sequence>): the remaining items"""
+
+    def __init__(self, items):
+        self.items, self.pos = list(items), 0
+
+
+class Model:
+    """base class of rule-supplied value models (a point set known only by its row count, a domain, a mask ...): the evaluator hands
+    attribute reads, method calls, subscripts, binary operators and len() on such a value to the model; the default is `not evaluable`"""
+
+    def le_getattr(self, name):
+        raise NotEval(f"attribute {name} of a {type(self).__name__}")
+
+    def le_call(self, method, args, kws):
+        raise NotEval(f"method {method} of a {type(self).__name__}")
+
+    def le_subscript(self, idx):
+        raise NotEval(f"subscript of a {type(self).__name__}")
+
+    def le_binop(self, op, other, reflected):
+        raise NotEval(f"operator on a {type(self).__name__}")
+
+    def le_len(self):
+        raise NotEval(f"len of a {type(self).__name__}")
+
+
 class Obj(Opaque):
     """an opaque object with known attribute values; calling it reaches the caller's `on_call` under the object's tag"""
 
@@ -114,6 +148,8 @@ def _rf(v) -> RF:
         return RF.const(v)
     if isinstance(v, float) and v == int(v):
         return RF.const(int(v))
+    if isinstance(v, float) and v == v and v not in (float("inf"), float("-inf")):
+        return RF.const(Fraction(str(v)))  # a decimal literal is taken at its written value (1.2 = 6/5)
     if isinstance(v, Fraction):
         return RF.const(v)
     if isinstance(v, Term):
@@ -144,6 +180,7 @@ class Frame:
         self.attrs: Dict[str, object] = {}
         self.ret = None
         self.returned = False
+        self.flow = None  # "break" / "continue" while unwinding to the enclosing loop
 
 
 class Evaluator:
@@ -154,6 +191,7 @@ class Evaluator:
         self.on_call = on_call
         self.steps = 0
         self.max_steps = max_steps
+        self.zero_division = False
 
     # ------------------------------------------------------------------ statements
     def run(self, body: List[ast.stmt], env: Dict[str, object], attrs: Optional[Dict[str, object]] = None) -> Frame:
@@ -165,7 +203,7 @@ class Evaluator:
 
     def block(self, stmts, f: Frame):
         for s in stmts:
-            if f.returned:
+            if f.returned or f.flow:
                 return
             self.stmt(s, f)
 
@@ -199,7 +237,8 @@ class Evaluator:
         try:
             self._stmt(s, f)
         except NotEval:
-            if isinstance(s, ast.Return):
+            if isinstance(s, ast.Return) or any(isinstance(n, (ast.Return, ast.Break, ast.Continue)) for n in ast.walk(s)):
+                # the statement decides where control goes next: nothing after it is known
                 f.ret, f.returned = UNKNOWN, True
             else:
                 self._poison(s, f)
@@ -243,18 +282,23 @@ class Evaluator:
                 raise NotEval("loop over a non-sequence")
             for x in list(it):
                 self.assign(s.target, x, f)
-                brk = False
-                for b in s.body:
-                    if f.returned:
-                        return
-                    if isinstance(b, ast.Break):
-                        brk = True
-                        break
-                    if isinstance(b, ast.Continue):
-                        break
-                    self.stmt(b, f)
-                if brk:
+                self.block(s.body, f)
+                if f.returned:
+                    return
+                flow, f.flow = f.flow, None
+                if flow == "break":
                     break
+            else:
+                self.block(s.orelse, f)
+            return
+        if isinstance(s, ast.Break):
+            f.flow = "break"
+            return
+        if isinstance(s, ast.Continue):
+            f.flow = "continue"
+            return
+        if isinstance(s, ast.FunctionDef) and not s.decorator_list:
+            f.env[s.name] = _LocalFn(s, f)
             return
         if isinstance(s, ast.Assert) or isinstance(s, ast.Pass):
             return
@@ -322,6 +366,8 @@ class Evaluator:
             return None
         if isinstance(e, ast.Constant):
             return e.value
+        if isinstance(e, ast.Name) and e.id == "Ellipsis" and "Ellipsis" not in f.env:
+            return Ellipsis
         if isinstance(e, ast.Name):
             if e.id in f.env:
                 v = f.env[e.id]
@@ -349,6 +395,8 @@ class Evaluator:
                 base = None
             if isinstance(base, Obj) and e.attr in base.fields:
                 return base.fields[e.attr]
+            if isinstance(base, Model):
+                return base.le_getattr(e.attr)
             return self._resolve(e, f)
         if isinstance(e, (ast.List, ast.Tuple)):
             out = []
@@ -363,6 +411,10 @@ class Evaluator:
             return out if isinstance(e, ast.List) else tuple(out)
         if isinstance(e, ast.Subscript):
             base = self.ev(e.value, f)
+            if isinstance(base, Model):
+                parts = e.slice.elts if isinstance(e.slice, ast.Tuple) else [e.slice]
+                idx = tuple(self.index(x, f) if isinstance(x, ast.Slice) else self.ev(x, f) for x in parts)
+                return base.le_subscript(idx if isinstance(e.slice, ast.Tuple) else idx[0])
             if isinstance(base, dict) and not isinstance(e.slice, (ast.Slice, ast.Tuple)):
                 k = self.ev(e.slice, f)
                 if _concrete(k) and not isinstance(k, (list, dict)) and k in base:
@@ -396,6 +448,9 @@ class Evaluator:
                 if a is None or b is None:
                     r = (a is None) == (b is None)
                     return r if isinstance(op, ast.Is) else not r
+                if (a is Ellipsis or b is Ellipsis) and all(x is Ellipsis or isinstance(x, (int, float, str, slice, list, tuple, dict)) for x in (a, b)):
+                    r = a is b  # Ellipsis is a singleton; concrete values of other types are never it
+                    return r if isinstance(op, ast.Is) else not r
                 raise NotEval("identity test")
             if isinstance(op, (ast.Eq, ast.NotEq)) and _concrete(a) and _concrete(b) and not all(isinstance(x, (int, float, str, bool)) for x in (a, b)):
                 return (a == b) if isinstance(op, ast.Eq) else (a != b)
@@ -407,13 +462,14 @@ class Evaluator:
                 return (a in b) if isinstance(op, ast.In) else (a not in b)
             raise NotEval("symbolic comparison")
         if isinstance(e, ast.BoolOp):
-            vals = [self.ev(v, f) for v in e.values]
-            if all(isinstance(v, (bool, int, type(None), list, tuple, str, set, frozenset, dict)) for v in vals):
-                r = vals[0]
-                for v in vals[1:]:
-                    r = (r and v) if isinstance(e.op, ast.And) else (r or v)
-                return r
-            raise NotEval("symbolic boolean")
+            r = None
+            for i, x in enumerate(e.values):
+                r = self.ev(x, f)  # left to right, short-circuit as Python does
+                if not isinstance(r, (bool, int, type(None), list, tuple, str, set, frozenset, dict)):
+                    raise NotEval("symbolic boolean")
+                if (isinstance(e.op, ast.And) and not r) or (isinstance(e.op, ast.Or) and r):
+                    return r
+            return r
         if isinstance(e, ast.IfExp):
             t = self.ev(e.test, f)
             if isinstance(t, (bool, int, type(None), list, tuple, str)):
@@ -499,6 +555,13 @@ class Evaluator:
 
     # ------------------------------------------------------------------ arithmetic
     def binop(self, a, op, b):
+        if isinstance(op, (ast.Div, ast.FloorDiv, ast.Mod)) and (isinstance(b, (int, float, Fraction)) and not isinstance(b, bool) and b == 0 or isinstance(b, RF) and b.is_const() and b.const_value() == 0):
+            self.zero_division = True  # the real code raises here: callers may treat the run as a loud failure
+            raise NotEval("division by zero")
+        if isinstance(a, Model):
+            return a.le_binop(op, b, False)
+        if isinstance(b, Model):
+            return b.le_binop(op, a, True)
         if isinstance(a, Vec1) or isinstance(b, Vec1):
             if isinstance(a, Vec1) and isinstance(b, Vec1):
                 if len(a) != len(b):
@@ -584,6 +647,42 @@ class Evaluator:
                 if q.arg == k:
                     return self.ev(q.value, f)
             return default
+        if isinstance(fn, ast.Name) and isinstance(f.env.get(fn.id), _LocalFn):
+            lf = f.env[fn.id]
+            a = lf.node.args
+            if a.vararg or a.kwarg or a.kwonlyargs or a.posonlyargs or any(isinstance(x, ast.Nonlocal) for x in ast.walk(lf.node)):
+                raise NotEval("local function signature")
+            names = [x.arg for x in a.args]
+            given = dict(zip(names, A()))
+            if len(A()) > len(names):
+                raise NotEval("too many arguments")
+            for q in e.keywords:
+                if q.arg is None or q.arg not in names or q.arg in given:
+                    raise NotEval("keyword of a local function")
+                given[q.arg] = self.ev(q.value, f)
+            for nme, d in zip(names[len(names) - len(a.defaults):], a.defaults):
+                if nme not in given:
+                    given[nme] = self.ev(d, lf.frame)
+            if set(given) != set(names):
+                raise NotEval("missing argument of a local function")
+            inner = Frame({**lf.frame.env, **given})
+            inner.attrs = f.attrs  # attribute state is shared
+            self.block(lf.node.body, inner)
+            if inner.ret is UNKNOWN:
+                raise NotEval("local function result unknown")
+            return inner.ret
+        if isinstance(fn, ast.Attribute) and not any(isinstance(x, ast.Call) for x in ast.walk(fn.value)):
+            try:
+                recv0 = self.ev(fn.value, f)
+            except NotEval:
+                recv0 = None
+            if isinstance(recv0, Model):
+                kws0 = {}
+                for q in e.keywords:
+                    if q.arg is None:
+                        raise NotEval("** in a model call")
+                    kws0[q.arg] = self.ev(q.value, f)
+                return recv0.le_call(fn.attr, A(), kws0)
         # list methods
         if isinstance(fn, ast.Attribute):
             m = fn.attr
@@ -662,9 +761,11 @@ class Evaluator:
         if name == "isinstance" and len(e.args) == 2:
             v = self.ev(e.args[0], f)
             types = ast.unparse(e.args[1])
-            kinds = {"int": int, "float": float, "list": list, "tuple": tuple, "str": str, "dict": dict, "bool": bool, "slice": slice, "torch.Tensor": Vec1, "Tensor": Vec1}
+            kinds = {"int": int, "float": float, "list": list, "tuple": tuple, "str": str, "dict": dict, "bool": bool, "slice": slice, "torch.Tensor": Vec1, "Tensor": Vec1, "np.ndarray": Vec1, "numpy.ndarray": Vec1}
             if isinstance(v, slice):
                 return "slice" in types
+            if v is Ellipsis:
+                return False if all(t in kinds for t in types.replace("(", " ").replace(")", " ").replace(",", " ").split()) else self._raise("isinstance of Ellipsis")
             toks = types.replace("(", " ").replace(")", " ").replace(",", " ").split()
             if isinstance(v, (RF, Term)) and toks and all(t in ("list", "tuple", "dict", "torch.Tensor", "Tensor", "str", "slice") for t in toks):
                 return False  # a symbolic scalar is no container
@@ -687,6 +788,8 @@ class Evaluator:
             raise NotEval("symbolic range")
         if name == "len":
             v = A()[0]
+            if isinstance(v, Model):
+                return v.le_len()
             if isinstance(v, (list, tuple, dict)):
                 return len(v)
             raise NotEval("len of a non-sequence")
@@ -704,6 +807,47 @@ class Evaluator:
                     raise NotEval("sorted")
                 return list(v) if name == "list" else tuple(v)
             raise NotEval(f"{name} of a non-sequence")
+        if name == "dict" and name not in f.env:
+            from collections import OrderedDict
+            a = A()
+            out = OrderedDict()
+            if len(a) > 1:
+                raise NotEval("dict of several arguments")
+            if a:
+                src = a[0]
+                if isinstance(src, dict):
+                    out.update(src)
+                elif isinstance(src, (list, tuple)) and all(isinstance(kv, (list, tuple)) and len(kv) == 2 and _concrete(kv[0]) and not isinstance(kv[0], (list, dict)) for kv in src):
+                    for k, v in src:
+                        out[k] = v
+                else:
+                    raise NotEval("dict of a non-mapping")
+            for q in e.keywords:
+                if q.arg is None:
+                    m = self.ev(q.value, f)
+                    if not isinstance(m, dict):
+                        raise NotEval("** of a non-mapping")
+                    out.update(m)
+                else:
+                    out[q.arg] = self.ev(q.value, f)
+            return out
+        if name == "iter" and len(e.args) == 1:
+            v = A()[0]
+            if isinstance(v, dict):
+                v = list(v.keys())
+            if isinstance(v, (list, tuple, range, Keys)):
+                return _It(v)
+            raise NotEval("iter of a non-sequence")
+        if name == "next" and 1 <= len(e.args) <= 2:
+            a = A()
+            if isinstance(a[0], _It):
+                if a[0].pos < len(a[0].items):
+                    a[0].pos += 1
+                    return a[0].items[a[0].pos - 1]
+                if len(a) == 2:
+                    return a[1]
+                raise NotEval("next of an exhausted iterator")
+            raise NotEval("next of a non-iterator")
         if name == "zip":
             a = A()
             if all(isinstance(x, (list, tuple, range)) for x in a):
